@@ -1,4 +1,4 @@
 SPECIFICATION Spec
 CONSTANT MaxLen = 4
-INVARIANTS Conforms RoundTrip
+INVARIANT AllConform
 CHECK_DEADLOCK FALSE
